@@ -130,24 +130,30 @@ func c14summary(m modeling.Mesh) string {
 
 type c14reader func(data []byte) c14out
 
-func c14readStl(data []byte) c14out {
-	m, err := stl.ReadMesh(bytes.NewReader(data))
+func c14readStl(data []byte) c14out { return c14readStlR(bytes.NewReader(data)) }
+
+func c14readStlR(in io.Reader) c14out {
+	m, err := stl.ReadMesh(in)
 	if err != nil {
 		return c14out{"err", ""}
 	}
 	return c14out{fmt.Sprintf("ok:%d", m.PrimitiveCount()), c14summary(*m)}
 }
 
-func c14readPly(data []byte) c14out {
-	m, err := ply.ReadMesh(bytes.NewReader(data))
+func c14readPly(data []byte) c14out { return c14readPlyR(bytes.NewReader(data)) }
+
+func c14readPlyR(in io.Reader) c14out {
+	m, err := ply.ReadMesh(in)
 	if err != nil {
 		return c14out{"err", ""}
 	}
 	return c14out{fmt.Sprintf("ok:%d:%d", m.AttributeLength(), m.Indices().Len()), c14summary(*m)}
 }
 
-func c14readPts(data []byte) c14out {
-	m, err := pts.ReadPointCloud(bytes.NewReader(data))
+func c14readPts(data []byte) c14out { return c14readPtsR(bytes.NewReader(data)) }
+
+func c14readPtsR(in io.Reader) c14out {
+	m, err := pts.ReadPointCloud(in)
 	if err != nil {
 		return c14out{"err", ""}
 	}
@@ -155,8 +161,10 @@ func c14readPts(data []byte) c14out {
 		c14b(m.HasFloat3Attribute(modeling.ColorAttribute))), c14summary(*m)}
 }
 
-func c14readSpz(data []byte) c14out {
-	cl, err := spz.Read(bytes.NewReader(data))
+func c14readSpz(data []byte) c14out { return c14readSpzR(bytes.NewReader(data)) }
+
+func c14readSpzR(in io.Reader) c14out {
+	cl, err := spz.Read(in)
 	if err != nil {
 		return c14out{"err", ""}
 	}
@@ -164,8 +172,10 @@ func c14readSpz(data []byte) c14out {
 	return c14out{fmt.Sprintf("ok:%d:%d", cl.Header.NumPoints, dim), c14summary(cl.Mesh)}
 }
 
-func c14readSplat(data []byte) c14out {
-	m, err := splat.Read(bytes.NewReader(data))
+func c14readSplat(data []byte) c14out { return c14readSplatR(bytes.NewReader(data)) }
+
+func c14readSplatR(in io.Reader) c14out {
+	m, err := splat.Read(in)
 	flag := 0
 	if err != nil {
 		if err != io.ErrUnexpectedEOF {
@@ -194,6 +204,8 @@ type c14file struct {
 	streamed bool
 	onePoint bool // PTS file declaring one point: a cut first line with >= 3 fields is a valid file of fewer fields
 	read     c14reader
+	readR    func(io.Reader) c14out
+	sampled  bool // large file: sampled cuts in both tiers, few oracle lines
 	label    string
 }
 
@@ -233,6 +245,10 @@ func (c *Ctx) c14cutPoints(n int) ([]int, bool) {
 		}
 		return ks, true
 	}
+	return c.c14sampledCuts(n), false
+}
+
+func (c *Ctx) c14sampledCuts(n int) []int {
 	set := map[int]bool{}
 	for i := 0; i <= 40; i++ {
 		set[i] = true
@@ -250,7 +266,7 @@ func (c *Ctx) c14cutPoints(n int) ([]int, bool) {
 		}
 	}
 	sort.Ints(ks)
-	return ks, false
+	return ks
 }
 
 // what compress/gzip delivers from a cut compressed stream before its error: -1 = the gzip header itself is rejected
@@ -283,7 +299,38 @@ func (c *Ctx) c14drive(f c14file) {
 		c.Emit("c14."+f.format+".cut", pre+c15hex(f.model), full.class)
 		return
 	}
+	if f.readR != nil {
+		// the same bytes through the reader family (full file and three cuts): class and decoded data must not depend on chunking
+		cutsRA := []int{len(f.data)}
+		for i := 0; i < 3 && len(f.data) > 0; i++ {
+			cutsRA = append(cutsRA, c.Rng.Intn(len(f.data)))
+		}
+		for _, k := range cutsRA {
+			parts := []string{}
+			for _, nr := range c15readerFamily(c.Rng.Intn(12)) {
+				nr := nr
+				prefix := f.data[:k]
+				r := c14guard(func() c14out {
+					rd := nr.mk(prefix)
+					o := f.readR(rd)
+					if pr, ok := rd.(*io.PipeReader); ok {
+						pr.Close()
+					}
+					return o
+				})
+				parts = append(parts, nr.name, c15digest(r.class+" "+r.sum))
+				if r.class == "timeout" {
+					c.Emit("c14."+f.format+".cut", pre+c15hex(f.model[:0]), "timeout")
+					c.c14flushExit()
+				}
+			}
+			c.Emit("c14.holds.readers_agree", fmt.Sprintf("%s %d %s", f.format, k, strings.Join(parts, " ")), "true")
+		}
+	}
 	ks, all := c.c14cutPoints(len(f.data))
+	if f.sampled && all {
+		ks, all = c.c14sampledCuts(len(f.data)), false
+	}
 	cls := make([]string, len(ks))
 	specParts := make([]string, len(ks))
 	sampled := map[int]bool{}
@@ -329,7 +376,7 @@ func (c *Ctx) c14drive(f c14file) {
 			c.Note("c14.cut.ok-on-strict-prefix." + f.format)
 			c.Emit("c14.holds.rejects_token_losing_cut", fmt.Sprintf("%s %d %s%s %s", f.format, k, pre, c15hex(f.model[:mk]), r.class), "true")
 		}
-		if isOk && (!f.ascii || c14tokenBoundary(f.data, k)) && (!f.streamed || k%7 == 0 || k > len(f.data)-40) {
+		if isOk && (!f.ascii || c14tokenBoundary(f.data, k)) && (!f.streamed || ((k%7 == 0 || k > len(f.data)-40) && (!f.sampled || k%32 < 2 || k > len(f.data)-40))) {
 			mode := c14b(f.streamed) // 0 complete (every attribute of the full decode), 1 streamed
 			if f.onePoint {
 				mode = "2" // restricted: attributes may be missing (pts_prefix, clause 4)
@@ -349,7 +396,6 @@ func (c *Ctx) c14drive(f c14file) {
 		c.c14malformed(f)
 	}
 }
-
 
 // ---- malformed stream: single mutations of valid files; the class of the WHOLE mutated file is compared
 // (the property speaks about rejection; this ties the model's error branches outside the prefix space) -----------
@@ -644,7 +690,7 @@ func (c *Ctx) c14plyFile(data []byte, label string) (c14file, bool) {
 	if !ok {
 		return c14file{}, false
 	}
-	return c14file{format: "ply", desc: desc, data: data, model: data, ascii: strings.HasPrefix(desc, "ascii"), read: c14readPly, label: label}, true
+	return c14file{format: "ply", desc: desc, data: data, model: data, ascii: strings.HasPrefix(desc, "ascii"), read: c14readPly, readR: c14readPlyR, label: label}, true
 }
 
 // hand-written ASCII / binary PLY files as other tools write them: quads, int list counts, doubles, an extra
@@ -836,7 +882,7 @@ func runC14(c *Ctx) {
 				mesh = c.c14mesh(nv, nt, normals, false, false)
 			}
 			if err := stl.WriteMesh(&b, mesh); err == nil {
-				c.c14drive(c14file{format: "stl", data: b.Bytes(), model: b.Bytes(), read: c14readStl, label: "stl"})
+				c.c14drive(c14file{format: "stl", data: b.Bytes(), model: b.Bytes(), read: c14readStl, readR: c14readStlR, label: "stl"})
 			}
 		}
 
@@ -845,7 +891,7 @@ func runC14(c *Ctx) {
 			n := []int{0, 1, 1, 2, 3, 7, 25}[c.Rng.Intn(7)]
 			fields := []int{3, 4, 7}[c.Rng.Intn(3)]
 			data := c.c14ptsText(n, fields, c.Rng.Intn(5) == 0, c.Rng.Intn(3) != 0)
-			c.c14drive(c14file{format: "pts", data: data, model: data, ascii: true, onePoint: n == 1, read: c14readPts, label: fmt.Sprintf("pts.%dfields", fields)})
+			c.c14drive(c14file{format: "pts", data: data, model: data, ascii: true, onePoint: n == 1, read: c14readPts, readR: c14readPtsR, label: fmt.Sprintf("pts.%dfields", fields)})
 		}
 
 		// --- SPZ: cut the compressed stream ---------------------------------------------------------------------------
@@ -855,7 +901,7 @@ func runC14(c *Ctx) {
 			deg := uint8(c.Rng.Intn(4))
 			stream := c.c14spzStream(version, n, deg, uint8(c.Rng.Intn(20)))
 			level := []int{gzip.NoCompression, gzip.BestSpeed, gzip.DefaultCompression}[c.Rng.Intn(3)]
-			c.c14drive(c14file{format: "spz", data: c14gzip(stream, level), model: stream, read: c14readSpz,
+			c.c14drive(c14file{format: "spz", data: c14gzip(stream, level), model: stream, read: c14readSpz, readR: c14readSpzR,
 				label: fmt.Sprintf("spz.v%d.sh%d", version, deg)})
 		}
 
@@ -868,8 +914,14 @@ func runC14(c *Ctx) {
 			}
 			var b bytes.Buffer
 			if err := splat.Write(&b, c15cloud(recs, modeling.PointTopology, "")); err == nil {
-				c.c14drive(c14file{format: "splat", data: b.Bytes(), model: b.Bytes(), streamed: true, read: c14readSplat, label: "splat"})
+				c.c14drive(c14file{format: "splat", data: b.Bytes(), model: b.Bytes(), streamed: true, read: c14readSplat, readR: c14readSplatR, label: "splat"})
 			}
+		}
+		// a .splat file across the 32 KiB (1024 records) boundary: once per run in quick, a few sizes in thorough
+		if k == 0 || (c.Tier == "thorough" && k%100 == 50) {
+			n := []int{1025, 1024, 1023, 2049}[(k/100)%4]
+			data := c.c15rnd(32 * n)
+			c.c14drive(c14file{format: "splat", data: data, model: data, streamed: true, sampled: true, read: c14readSplat, readR: c14readSplatR, label: fmt.Sprintf("splat.%d", n)})
 		}
 	}
 }
